@@ -6,6 +6,7 @@
  * read-only classifiers, at least holds a NUL.
  *   FN 1..7  strisalphanumeric_s strisascii_s strisdigit_s strishex_s strislowercase_s strismixedcase_s strisuppercase_s
  *   FN 10 strzero_s  11 strset_s  12 strtolowercase_s  13 strtouppercase_s  14 strnterminate_s
+ *   FN 20 strfirstchar_s  21 strlastchar_s   (the returned pointer is the witness: complete C10 statement for the found case)
  * C02 (loads), C01 (stores / frame), C05; C03/C08/C06 clauses where a quantifier-free statement exists.
  * The complete classification result of FN 1..7 ("every character before the terminator is in the class")
  * needs an existential witness and stays with the bounded jobs B.q.*.
@@ -139,6 +140,32 @@ __CPROVER_ensures((VALID && gk == R && R + 1 < dmax) ==> g_old_k == 0) /* @C06 *
 __CPROVER_ensures((dest != NULL && gk < g_ssz && !(VALID && gk == R)) ==> AT(gk) == g_old_k) /* @C01 */
 ;
 #define CALL(d, m, b) (void)_strnterminate_s_chk(d, m, b)
+#elif FN == 20 || FN == 21
+#define WRITER 0
+static char g_c; static char *g_res;
+#if FN == 20
+#define F _strfirstchar_s_chk
+#else
+#define F _strlastchar_s_chk
+#endif
+#define IDX ((size_t)(*firstp - dest))
+errno_t F(char *dest, rsize_t dmax, char c, char **firstp, const size_t destbos)
+COMMON_REQ
+__CPROVER_requires(firstp == &g_res)
+__CPROVER_assigns(g_res, g_hcalls, g_herr)
+__CPROVER_ensures((R == EOK || R == ESNOTFND) ? g_hcalls == 0 : (g_hcalls == 1 && g_herr == R)) /* @C05 */
+__CPROVER_ensures(!VALID ==> R == (dest == NULL ? ESNULLP : dmax == 0 ? ESZEROL : dmax > RSIZE_MAX_STR ? ESLEMAX : EOVERFLOW)) /* @C05 */
+__CPROVER_ensures(VALID ==> (R == EOK || R == ESNOTFND)) /* @C05 */
+__CPROVER_ensures(R != EOK ==> *firstp == NULL) /* @C10 */
+__CPROVER_ensures(R == EOK ==> (__CPROVER_same_object(*firstp, dest) && IDX < dmax && IDX < g_ssz && AT(IDX) == c)) /* @C10 */
+#if FN == 20
+__CPROVER_ensures((R == EOK && gk < IDX) ==> (AT(gk) != c && AT(gk) != 0)) /* @C10 */
+#else
+__CPROVER_ensures((R == EOK && gk < IDX) ==> AT(gk) != 0) /* @C10 */
+#endif
+__CPROVER_ensures((R == ESNOTFND && gk == 0) ==> AT(gk) != c || c == 0) /* @C10 */
+;
+#define CALL(d, m, b) (void)F(d, m, g_c, &g_res, b)
 #endif
 
 void harness(void)
